@@ -10,6 +10,25 @@ package main
 //   S:<op>:<args...>                     a step; files are referred to by their index in the F list
 //      open:i  change:i:<hex>  save:i  close:i  hover:i:l:c  define:i:l:c  refs:i:l:c  rename:i:l:c:<hex name>
 //      highlight:i:l:c  complete:i:l:c  sighelp:i:l:c  docsym:i  wssym:<hex query>  color:i  diags
+//   X:link:<hex relpath>:<hex target>    a symbolic link created before the server starts (target taken literally: a
+//                                        missing target gives a dangling link, e.g. the Emacs lock file `.#main.lua`)
+//   X:dir:<hex relpath>                  a directory created before the server starts (e.g. one NAMED `x.lua`)
+//   (items with any other letter are ignored: legs carry data for their model side in them, e.g. G: D: of c13.hover)
+//   steps that name a path (relative to the workspace root, hex) instead of an F index - the path need not exist:
+//      watch:<t>:<hex rel>[:<t>:<hex rel>...]   ONE workspace/didChangeWatchedFiles notification (t: 1 created, 2 changed,
+//                                               3 deleted); the disk is NOT touched (use the fs* steps before it)
+//      fswrite:<hex rel>:<hex content>  fsrm:<hex rel>  fsmkdir:<hex rel>  fslink:<hex rel>:<hex target>   disk only, no message
+//      popen:<hex rel>:<hex text>  pchange:<hex rel>:<hex text>  psave:<hex rel>[:<hex text>]  pclose:<hex rel>
+//                                               didOpen / didChange (full text) / didSave (with or without text) / didClose
+//      phover:<hex rel>:l:c  pdocsym:<hex rel>  requests on such a path
+//      alive                                    a fence round trip: `alive=ok` when the server answered it
+//      rchange:i:sl:sc:el:ec:<hex text>[:<rangeLength>]   incremental didChange (one content change WITH a range; the harness's
+//                                               copy of the file text is NOT updated: use it last or follow with change:)
+//      nchange:i:<rangeLength>:<hex text>       didChange whose content change has NO range but carries `rangeLength`
+//                                               (optional and deprecated in LSP: still a full-text change)
+//      resolve:i:l:c:<hex label>                textDocument/completion at the position, then completionItem/resolve of every
+//                                               returned item with that label (`-` = every item, at most 60): the
+//                                               answer is `resolve=[<hex label>=<hex documentation>,...]` sorted
 // Answer: the canonical results of the query steps, joined by " | ".
 
 import (
@@ -226,6 +245,8 @@ func runScript(line string) string {
 		opts[n] = true
 	}
 	var steps []string
+	var links [][2]string
+	var dirs []string
 	root, err := ioutil.TempDir("", "lhsrv")
 	if err != nil {
 		return "TMPERR"
@@ -250,11 +271,26 @@ func runScript(line string) string {
 			}
 		case strings.HasPrefix(it, "S:"):
 			steps = append(steps, it[2:])
+		case strings.HasPrefix(it, "X:link:"):
+			p := strings.SplitN(it[7:], ":", 2)
+			if len(p) == 2 {
+				links = append(links, [2]string{filepath.Join(root, string(unhex(p[0]))), string(unhex(p[1]))})
+			}
+		case strings.HasPrefix(it, "X:dir:"):
+			dirs = append(dirs, filepath.Join(root, string(unhex(it[6:]))))
 		}
+		// every other item (G: D: U: ... = data some leg carries for its MODEL side) is ignored here
 	}
 	for _, f := range files {
 		os.MkdirAll(filepath.Dir(f.abs), 0755)
 		ioutil.WriteFile(f.abs, []byte(f.content), 0644)
+	}
+	for _, d := range dirs {
+		os.MkdirAll(d, 0755)
+	}
+	for _, l := range links {
+		os.MkdirAll(filepath.Dir(l[0]), 0755)
+		os.Symlink(l[1], l[0])
 	}
 	common.GlobalConfigDefautInit()
 	common.GConfig.IntialGlobalVar()
@@ -276,6 +312,8 @@ func runScript(line string) string {
 	version := 1
 	var out []string
 	atoi := func(x string) int { v, _ := strconv.Atoi(x); return v }
+	pabs := func(h string) string { return filepath.Join(root, string(unhex(h))) }
+	puri := func(h string) string { return "file://" + root + "/" + string(unhex(h)) }
 	for _, st := range steps {
 		a := strings.Split(st, ":")
 		op := a[0]
@@ -441,6 +479,107 @@ func runScript(line string) string {
 			}
 			s.mu.Unlock()
 			out = append(out, "diags=["+strings.Join(ds, ";")+"]")
+		case "watch":
+			evs := []map[string]interface{}{}
+			for k := 1; k+1 < len(a); k += 2 {
+				evs = append(evs, map[string]interface{}{"uri": puri(a[k+1]), "type": atoi(a[k])})
+			}
+			s.notify("workspace/didChangeWatchedFiles", map[string]interface{}{"changes": evs})
+		case "fswrite":
+			p := pabs(a[1])
+			os.MkdirAll(filepath.Dir(p), 0755)
+			ioutil.WriteFile(p, unhex(a[2]), 0644)
+		case "fsrm":
+			os.RemoveAll(pabs(a[1]))
+		case "fsmkdir":
+			os.MkdirAll(pabs(a[1]), 0755)
+		case "fslink":
+			p := pabs(a[1])
+			os.MkdirAll(filepath.Dir(p), 0755)
+			os.Remove(p)
+			os.Symlink(string(unhex(a[2])), p)
+		case "popen":
+			s.notify("textDocument/didOpen", map[string]interface{}{"textDocument": map[string]interface{}{
+				"uri": puri(a[1]), "languageId": "lua", "version": version, "text": string(unhex(a[2]))}})
+		case "pchange":
+			version++
+			s.notify("textDocument/didChange", map[string]interface{}{
+				"textDocument":   map[string]interface{}{"uri": puri(a[1]), "version": version},
+				"contentChanges": []map[string]interface{}{{"text": string(unhex(a[2]))}}})
+		case "psave":
+			p := map[string]interface{}{"textDocument": map[string]interface{}{"uri": puri(a[1])}}
+			if len(a) > 2 {
+				p["text"] = string(unhex(a[2]))
+			}
+			s.notify("textDocument/didSave", p)
+		case "pclose":
+			s.notify("textDocument/didClose", map[string]interface{}{"textDocument": map[string]interface{}{"uri": puri(a[1])}})
+		case "phover":
+			_, e := s.call("textDocument/hover", map[string]interface{}{"textDocument": map[string]interface{}{"uri": puri(a[1])},
+				"position": map[string]interface{}{"line": atoi(a[2]), "character": atoi(a[3])}})
+			out = append(out, "phover="+map[bool]string{true: "ok", false: e}[e == ""])
+		case "pdocsym":
+			_, e := s.call("textDocument/documentSymbol", map[string]interface{}{"textDocument": map[string]interface{}{"uri": puri(a[1])}})
+			out = append(out, "pdocsym="+map[bool]string{true: "ok", false: e}[e == ""])
+		case "rchange":
+			version++
+			ch := map[string]interface{}{"text": string(unhex(a[6])), "range": map[string]interface{}{
+				"start": map[string]interface{}{"line": atoi(a[2]), "character": atoi(a[3])},
+				"end":   map[string]interface{}{"line": atoi(a[4]), "character": atoi(a[5])}}}
+			if len(a) > 7 {
+				ch["rangeLength"] = atoi(a[7])
+			}
+			s.notify("textDocument/didChange", map[string]interface{}{
+				"textDocument":   map[string]interface{}{"uri": uri(atoi(a[1])), "version": version},
+				"contentChanges": []map[string]interface{}{ch}})
+		case "nchange":
+			i := atoi(a[1])
+			files[i].content = string(unhex(a[3]))
+			version++
+			s.notify("textDocument/didChange", map[string]interface{}{
+				"textDocument":   map[string]interface{}{"uri": uri(i), "version": version},
+				"contentChanges": []map[string]interface{}{{"text": files[i].content, "rangeLength": atoi(a[2])}}})
+		case "resolve":
+			raw, e := s.call("textDocument/completion", tdp(atoi(a[1]), atoi(a[2]), atoi(a[3])))
+			if e != "" {
+				out = append(out, "resolve="+e)
+				break
+			}
+			var cl struct {
+				Items []json.RawMessage `json:"items"`
+			}
+			json.Unmarshal(raw, &cl)
+			want := string(unhex(a[4]))
+			rs := []string{}
+			for _, it := range cl.Items {
+				var lab struct {
+					Label string `json:"label"`
+				}
+				json.Unmarshal(it, &lab)
+				if (want != "" && lab.Label != want) || len(rs) >= 60 {
+					continue
+				}
+				var item interface{}
+				json.Unmarshal(it, &item)
+				r2, e2 := s.call("completionItem/resolve", item)
+				if e2 != "" {
+					rs = append(rs, hs(lab.Label)+"="+e2)
+					continue
+				}
+				var res struct {
+					Detail        string `json:"detail"`
+					Documentation struct {
+						Value string `json:"value"`
+					} `json:"documentation"`
+				}
+				json.Unmarshal(r2, &res)
+				rs = append(rs, hs(lab.Label)+"="+hs(strings.ReplaceAll(res.Detail+res.Documentation.Value, root, "$ROOT")))
+			}
+			sort.Strings(rs)
+			out = append(out, "resolve=["+strings.Join(rs, ",")+"]")
+		case "alive":
+			_, e := s.call("textDocument/documentSymbol", map[string]interface{}{"textDocument": map[string]interface{}{"uri": "file://" + root + "/__fence__.lua"}})
+			out = append(out, "alive="+map[bool]string{true: "ok", false: e}[e == ""])
 		default:
 			out = append(out, "BADSTEP:"+op)
 		}
